@@ -127,6 +127,8 @@ pub uninterp spec fn rscheme<T>(r: Route<T>) -> Option<Seq<char>>;
 pub open spec fn rscheme_of<T>(x: RouteRef<T>) -> Option<Seq<char>> { rscheme(*x) }
 pub open spec fn opt_chars(o: Option<&str>) -> Option<Seq<char>> { match o { Some(s) => Some(s@), None => None } }
 impl<T> Route<T> {
+    // compiling the route's own marker regexes (C12: transparent by LazyRegex's contract, unit tree); result unconstrained here
+    #[verifier::external_body] pub fn compile(&self) -> u8 { unimplemented!() }
     #[verifier::external_body] pub fn id(&self) -> (r: &str) ensures r@ == rid(*self) { unimplemented!() }
     #[verifier::external_body] pub fn scheme(&self) -> (r: Option<&str>) ensures opt_chars(r) == rscheme(*self) { unimplemented!() }
 }
@@ -192,7 +194,16 @@ impl<T> Sub<T> {
     pub fn len(&self) -> (r: usize) ensures r == self.cnt() { unimplemented!() }
     #[verifier::external_body]
     pub fn is_empty(&self) -> (r: bool) ensures r == (self.cnt() == 0) { unimplemented!() }
+    // cache warm-up of a lower layer (C12): same stored routes, same observable behaviour (sub_obs names the function request -> answer),
+    // never hands back more budget than it got
+    #[verifier::external_body]
+    pub fn cache(&mut self, limit: u64, level: u64) -> (r: u64)
+        requires old(self).wf(),
+        ensures final(self).wf(), final(self).cnt() == old(self).cnt(), sub_obs(*final(self)) == sub_obs(*old(self)), r <= limit,
+            forall|x: RouteRef<T>| #![trigger final(self).holds(x)] final(self).holds(x) <==> old(self).holds(x),
+    { unimplemented!() }
 }
+pub uninterp spec fn sub_obs<T>(s: Sub<T>) -> int;
 // consequences of the lower layer's invariant (part of / implied by wf() on the layers verified here: see lemma_*_wf below)
 #[verifier::external_body]
 pub proof fn lemma_sub_wf<T>(s: Sub<T>) requires s.wf() ensures uniq(s), s.cnt() == 0 ==> forall|x: RouteRef<T>| !s.holds(x), s.cnt() <= usize::MAX {}
@@ -1332,6 +1343,21 @@ impl<T> Router<T> {
     //@|     proof { axiom_string_ext(); lemma_router_uniq(*self); }
     //@| exit proof { if vf_ret is None { assert forall|y: RouteRef<T>| #[trigger] self.live(y) implies rid(*y) != id@ by { if rid(*y) == id@ { let k = choose|k: String| self.routes@.contains_key(k) && self.routes@[k] == y; assert(k@ == id@); } } } }
 
+    // cache warm-up (C12) at the Router level: any limit; the live rules, the id table and the matcher's observable behaviour are unchanged;
+    // the level counter cannot overflow and both loops terminate
+    //@@ fn src/router/mod.rs :: impl <T>Router<T> / fn cache
+    //@| requires old(self).wf(),
+    //@| ensures final(self).wf(), final(self).routes@ == old(self).routes@, final(self).config == old(self).config, sub_obs(final(self).matcher) == sub_obs(old(self).matcher),
+    //@|     forall|x: RouteRef<T>| #![trigger final(self).live(x)] final(self).live(x) <==> old(self).live(x),
+    //@| entry broadcast use group_hash_axioms; broadcast use axiom_string_key_model;
+    //@| loopbefore 0: let ghost p0 = prev_cache_limit as int;
+    //@| loop 0: invariant_except_break retry <= 5,
+    //@|     invariant self.matcher.wf(), self.routes@ == old(self).routes@, self.config == old(self).config, sub_obs(self.matcher) == sub_obs(old(self).matcher),
+    //@|         forall|x: RouteRef<T>| #![trigger self.matcher.holds(x)] self.matcher.holds(x) <==> old(self).matcher.holds(x),
+    //@|         0 <= retry <= 6, prev_cache_limit as int <= p0, level as int + prev_cache_limit as int <= p0 + retry as int, p0 <= i64::MAX,
+    //@|     decreases prev_cache_limit as int + (6 - retry as int),
+    //@| loop 1: invariant_except_break prev_cache_limit > 0,
+
     //@@ fn src/router/mod.rs :: impl <T>Router<T> / fn len -> r
     //@| ensures r == self.routes@.len(),
     //@| entry broadcast use group_hash_axioms; broadcast use axiom_string_key_model;
@@ -1360,6 +1386,7 @@ pub fn outl_extend_ids<T>(removed: &mut HashSet<String>, routes: &Vec<Route<T>>)
 #[verifier::external_body]
 pub fn outl_arc_config<'a>(c: &'a Arc<RouterConfig>) -> (r: &'a RouterConfig) ensures *r == **c { /* verbatim: self.config.as_ref() */ c.as_ref() }
 pub open spec fn cfg_of(c: Arc<RouterConfig>) -> RouterConfig { *c }
+pub open spec fn has_route<T>(r: Router<T>, rt: Route<T>) -> bool { exists|y: RouteRef<T>| #[trigger] r.live(y) && *y == rt }
 pub open spec fn cs_routes<T: IntoRoute<T>>(updated: Seq<T>, added: Seq<T>, config: RouterConfig) -> Seq<Route<T>> { routes_of(updated, config) + routes_of(added, config) }
 // ids deleted by a change set: the explicit removals plus the ids of the updated rules
 pub open spec fn cs_gone<T: IntoRoute<T>>(removed: Set<String>, updated: Seq<T>, config: RouterConfig, id: Seq<char>) -> bool {
@@ -1386,7 +1413,7 @@ impl<T: IntoRoute<T>> Router<T> {
     //@|     // exactly: the survivors (same Arcs), plus one live rule per updated / added item carrying exactly the converted route
     //@|     forall|y: RouteRef<T>| survives(*old(self), removed@, updated@, y) ==> #[trigger] final(self).live(y),
     //@|     forall|y: RouteRef<T>| #[trigger] final(self).live(y) ==> survives(*old(self), removed@, updated@, y) || exists|i: int| 0 <= i < updated@.len() + added@.len() && *y == #[trigger] cs_routes(updated@, added@, *old(self).config)[i],
-    //@|     forall|i: int| 0 <= i < updated@.len() + added@.len() ==> exists|y: RouteRef<T>| final(self).live(y) && *y == #[trigger] cs_routes(updated@, added@, *old(self).config)[i],
+    //@|     forall|i: int| 0 <= i < updated@.len() + added@.len() ==> has_route(*final(self), #[trigger] cs_routes(updated@, added@, *old(self).config)[i]),
     //@| outline `updated .into_iter() .map(|item| item.into_route(self.config.as_ref())) .collect::<Vec<Route<T>>>()` => `outl_into_routes(updated, outl_arc_config(&self.config))`
     //@| outline `removed.extend(updated_route.iter().map(|item| item.id().to_string()));` => `outl_extend_ids(&mut removed, &updated_route);`
     //@| attr #[verifier::loop_isolation(false)]
@@ -1452,8 +1479,7 @@ impl<T: IntoRoute<T>> Router<T> {
     //@|         if !r1.live(y) { let i = choose|i: int| 0 <= i < ins.len() && ins[i] == y; assert(*y == all[i]); }
     //@|     }
     //@|     assert(ins.len() == upd0.len() + add0.len()); assert(all == cs_routes(upd0, add0, *c0));
-    //@|     assert forall|i: int| 0 <= i < upd0.len() + add0.len() implies exists|y: RouteRef<T>| self.live(y) && *y == #[trigger] cs_routes(upd0, add0, *c0)[i] by { let y = ins[i]; assert(ins.contains(y)); assert(self.live(y) && *y == all[i]); }
-    //@|     assert forall|i: int| 0 <= i < updated@.len() + added@.len() implies exists|y: RouteRef<T>| self.live(y) && *y == #[trigger] all[i] by { let y = ins[i]; assert(ins.contains(y)); assert(self.live(y) && *y == all[i]); }
+    //@|     assert forall|i: int| 0 <= i < upd0.len() + add0.len() implies has_route(*self, #[trigger] cs_routes(upd0, add0, *c0)[i]) by { let y = ins[i]; assert(ins.contains(y)); assert(self.live(y) && *y == all[i]); }
     //@| }
 }
 //@@ unrename SchemeMatcher
